@@ -441,7 +441,10 @@ def gen_lists(ctx):
 
 def gen_mappings(ctx):
     rng = ctx.sub_rng('mappings')
-    out = [[], [[]], [[], []], [[[]]], [[[0]]], [[[0, 0, 0, 0]], [], [[1, 0, 2, 3, 1], [4]]], [[[1], []]]]
+    out = [[], [[]], [[], []], [[[]]], [[[0]]], [[[0, 0, 0, 0]], [], [[1, 0, 2, 3, 1], [4]]], [[[1], []]],
+           # segments that restate the previous position (all fields zero), leading and non-leading, 1 / 4 / 5 fields
+           [[[4, 0, 0, 4], [0, 0, 0, 0], [2, 0, 1, 0]]], [[[0, 0, 0, 0], [0, 0, 0, 0]]], [[[3], [0], [0, 0, 0, 0, 0], [1, 0, 0, 0, 0]]],
+           [[[0], [0], [0]], [[0, 0, 0, 0, 0], [0, 0, 0, 0, 0]]]]
     for _ in range(ctx.n(1200, 15000)):
         m = []
         for _l in range(rng.choice([0, 1, 1, 2, 3, 4, rng.randint(5, 12)])):
@@ -449,6 +452,9 @@ def gen_mappings(ctx):
             for _s in range(rng.choice([0, 0, 1, 1, 2, 3, rng.randint(4, 9)])):
                 r = rng.random()
                 n = 0 if r < 0.04 else rng.choice([1, 4, 4, 5, 5, rng.randint(1, 8)])
+                if rng.random() < 0.06:
+                    line.append([0] * n)        # an all-zero segment
+                    continue
                 line.append([rand_int(rng) if rng.random() < 0.3 else rng.randint(-60, 60) for _ in range(n)])
             m.append(line)
         out.append(m)
@@ -674,6 +680,31 @@ def run(ctx):
     st.run('dec', dec_cases, nontrivial=lambda a: len(a) > 0)
     st.run('dec1', canon + alpha + foreign, do_judge=False, nontrivial=lambda a: len(a) > 0)
     st.run('decmap', map_texts + gen_mapping_strings(ctx, map_texts), do_judge=False, nontrivial=lambda a: len(a) > 0)
+
+    # ---- the laws after calls that FAILED: a call that raises part way through (a non-integer in the middle of a segment,
+    # an iterator that breaks) must leave nothing behind that changes what the next call returns
+    vlq = V()
+
+    def breaking():
+        yield 1
+        yield 2
+        raise RuntimeError('source of integers broke')
+    poison = [lambda: vlq.encode_vlqs((1, 2, None)), lambda: vlq.encode_vlqs(breaking()), lambda: vlq.encode_vlqs([5, 'x']),
+              lambda: vlq.encode_mappings([[(1, 0, 0, 0), (2, None)]]), lambda: vlq.decode_vlqs('AA!A'), lambda: vlq.decode_vlq('!'),
+              lambda: vlq.decode_mappings('AAAA;A!'), lambda: vlq.encode_vlq(None)]
+    after = [('encs', [3]), ('encs', [0, -1, 1 << 40]), ('encmap', [[[1, 0, 0, 0], [2, 0, 1, 0, 3]], [[4]]]), ('enc', -128),
+             ('dec', 'CEG'), ('dec', 'AAgB')]
+    for k, bad in enumerate(poison):
+        try:
+            bad()
+        except Exception:
+            pass
+        for kind, a in after:
+            ctx.case(('after-failure', k, kind, key_of(a)))
+            t = judge(kind, a, orc)
+            if t is not None and kind not in st.judge_fail:
+                st.judge_fail[kind] = (a, 'after a call that raised (#%d): %s' % (k, t))
+    ctx.bump('after-failure-cases', len(poison) * len(after))
 
     # ---- verdict
     for kind, (case, text) in sorted(st.judge_fail.items()):
